@@ -503,4 +503,163 @@ theorem candidates_total (args : List UArg) (hok : ∀ a ∈ args, argOK a = tru
           exact ⟨hne (s, o1) ho1, rfl⟩
         | _ :: _ :: _, _, hlen1, _ => simp at hlen1
 
+/-! ### elementwise index strings: what `broadcast_shapes` accepts satisfies the hypotheses -/
+
+theorem nodupB_iff (l : List Nat) : nodupB l = true ↔ l.Nodup := by
+  induction l with
+  | nil => simp [nodupB]
+  | cons x r ih => simp [nodupB, ih, List.nodup_cons]
+
+theorem nodupB_revRange (n : Nat) : nodupB (revRange n) = true := by
+  rw [nodupB_iff]; unfold revRange
+  have h := List.nodup_range (n := n)
+  unfold List.Nodup at h ⊢
+  rw [List.pairwise_reverse]
+  exact h.imp (fun hab => fun e => hab e.symm)
+
+theorem getElem?_revRange (n i s : Nat) : (revRange n)[i]? = some s ↔ i < n ∧ s = n - 1 - i := by
+  unfold revRange
+  by_cases h : i < n
+  · rw [List.getElem?_reverse (by simpa using h)]
+    simp only [List.length_range]
+    rw [List.getElem?_range (by omega)]
+    simp only [Option.some.injEq]
+    omega
+  · rw [List.getElem?_eq_none (by simpa using h)]
+    simp [h]
+
+theorem mem_revzip {α : Type} (l : List α) (s : Nat) (o : α) :
+    (s, o) ∈ (revRange l.length).zip l ↔ l.reverse[s]? = some o := by
+  rw [List.mem_iff_getElem?]
+  constructor
+  · rintro ⟨i, hi⟩
+    obtain ⟨h1, h2⟩ := List.getElem?_zip_eq_some.mp hi
+    obtain ⟨hlt, hs⟩ := (getElem?_revRange _ _ _).mp h1
+    rw [List.getElem?_reverse (by omega)]
+    have : l.length - 1 - s = i := by omega
+    rw [this]; exact h2
+  · intro h
+    have hs : s < l.length := by
+      have := (List.getElem?_eq_some_iff.mp h).1
+      simpa using this
+    rw [List.getElem?_reverse hs] at h
+    refine ⟨l.length - 1 - s, List.getElem?_zip_eq_some.mpr ⟨?_, h⟩⟩
+    exact (getElem?_revRange _ _ _).mpr ⟨by omega, by omega⟩
+
+theorem maxInt_two (x y : Int) : maxInt [x, y] = if y < x then x else y := by simp [maxInt]
+
+theorem bdim_two (a b : Nat) (d : Int) (h : bdim [(a : Int), (b : Int)] = some d) : a = b ∨ a = 1 ∨ b = 1 := by
+  unfold bdim at h
+  rw [maxInt_two] at h
+  by_cases hc : [(a : Int), (b : Int)].contains 0 = true
+  · simp only [hc, if_true] at h
+    split at h
+    · simp at h
+    · rename_i hany
+      simp at hany hc
+      omega
+  · have hcf : [(a : Int), (b : Int)].contains 0 = false := by simpa using hc
+    rw [hcf] at h
+    simp only [Bool.false_eq_true, if_false] at h
+    by_cases hlt : (b : Int) < a
+    · simp only [hlt, if_true] at h
+      split at h
+      · simp at h
+      · rename_i hany
+        simp at hany hcf
+        omega
+    · simp only [hlt, if_false] at h
+      split at h
+      · simp at h
+      · rename_i hany
+        simp at hany hcf
+        omega
+
+theorem column_two (sa sb : List Nat) (i : Nat) :
+    column [sa, sb] i = [((sa.reverse[i]?).map Int.ofNat).getD (-1), ((sb.reverse[i]?).map Int.ofNat).getD (-1)] := rfl
+
+theorem shapeOf_reverse_get (c : Chunks) (s : Nat) (o : List Nat) (h : c.reverse[s]? = some o) :
+    (shapeOf c).reverse[s]? = some o.sum := by
+  unfold shapeOf
+  rw [← List.map_reverse, List.getElem?_map, h]; rfl
+
+theorem pairs_ewArgs (ca cb : Chunks) (p : Sym × List Nat) :
+    p ∈ pairs (ewArgs ca cb) ↔ p ∈ (revRange ca.length).zip ca ∨ p ∈ (revRange cb.length).zip cb := by
+  simp [pairs, ewArgs]
+
+/-- what `broadcast_shapes` accepts is broadcast-compatible symbol by symbol -/
+theorem bcastOK_ewArgs (ca cb : Chunks) (sh : List Nat) (h : broadcastShapes [shapeOf ca, shapeOf cb] = some sh) :
+    bcastOK (ewArgs ca cb) = true := by
+  -- every column is accepted by `bdim`
+  have hcol : ∀ i, i < maxLen [shapeOf ca, shapeOf cb] → ∃ d, bdim (column [shapeOf ca, shapeOf cb] i) = some d := by
+    simp only [broadcastShapes] at h
+    cases ho : optAll ((List.range (maxLen [shapeOf ca, shapeOf cb])).map fun i => bdim (column [shapeOf ca, shapeOf cb] i)) with
+    | none => rw [ho] at h; simp at h
+    | some l =>
+      intro i hi
+      exact optAll_some_mem _ _ l ho i (List.mem_range.mpr hi)
+  have hml : maxLen [shapeOf ca, shapeOf cb] = max ca.length cb.length := by
+    simp [maxLen, shapeOf]
+  have cross : ∀ (s : Nat) (o o' : List Nat), ca.reverse[s]? = some o → cb.reverse[s]? = some o' →
+      o.sum = o'.sum ∨ o.sum = 1 ∨ o'.sum = 1 := by
+    intro s o o' h1 h2
+    have hs : s < ca.length := by
+      have := (List.getElem?_eq_some_iff.mp h1).1
+      simpa using this
+    obtain ⟨d, hd⟩ := hcol s (by rw [hml]; omega)
+    rw [column_two, shapeOf_reverse_get ca s o h1, shapeOf_reverse_get cb s o' h2] at hd
+    exact bdim_two o.sum o'.sum d hd
+  unfold bcastOK
+  rw [List.all_eq_true]
+  intro p hp
+  rw [List.all_eq_true]
+  intro q hq
+  obtain ⟨s, o⟩ := p
+  obtain ⟨t, o'⟩ := q
+  by_cases hst : s = t
+  · subst hst
+    have : o.sum = o'.sum ∨ o.sum = 1 ∨ o'.sum = 1 := by
+      rcases (pairs_ewArgs ca cb _).mp hp with h1 | h1 <;> rcases (pairs_ewArgs ca cb _).mp hq with h2 | h2
+      · have e1 := (mem_revzip ca s o).mp h1
+        have e2 := (mem_revzip ca s o').mp h2
+        rw [e1] at e2
+        left; simp only [Option.some.injEq] at e2; rw [e2]
+      · exact cross s o o' ((mem_revzip ca s o).mp h1) ((mem_revzip cb s o').mp h2)
+      · rcases cross s o' o ((mem_revzip ca s o').mp h2) ((mem_revzip cb s o).mp h1) with e | e | e
+        · exact Or.inl e.symm
+        · exact Or.inr (Or.inr e)
+        · exact Or.inr (Or.inl e)
+      · have e1 := (mem_revzip cb s o).mp h1
+        have e2 := (mem_revzip cb s o').mp h2
+        rw [e1] at e2
+        left; simp only [Option.some.injEq] at e2; rw [e2]
+    rcases this with e | e | e <;> simp [e]
+  · simp [hst]
+
+theorem argOK_ew (c : Chunks) (hc : ∀ x ∈ c, x ≠ []) : argOK ⟨revRange c.length, c⟩ = true := by
+  simp only [argOK, Bool.and_eq_true, nodupB_revRange, and_true]
+  refine ⟨by simp [revRange], List.all_eq_true.mpr ?_⟩
+  intro x hx
+  have := hc x hx
+  cases x with
+  | nil => exact absurd rfl this
+  | cons _ _ => rfl
+
+theorem out_syms (ca cb : Chunks) (s : Nat) (hs : s ∈ revRange (max ca.length cb.length)) : s ∈ syms (ewArgs ca cb) := by
+  have hlt : s < max ca.length cb.length := by
+    unfold revRange at hs
+    simpa using hs
+  have hex : ∃ o, (s, o) ∈ pairs (ewArgs ca cb) := by
+    by_cases h : s < ca.length
+    · have : ca.reverse[s]? = some (ca.reverse[s]'(by simpa using h)) := List.getElem?_eq_getElem _
+      exact ⟨_, (pairs_ewArgs ca cb _).mpr (Or.inl ((mem_revzip ca s _).mpr this))⟩
+    · have h' : s < cb.length := by
+        omega
+      have : cb.reverse[s]? = some (cb.reverse[s]'(by simpa using h')) := List.getElem?_eq_getElem _
+      exact ⟨_, (pairs_ewArgs ca cb _).mpr (Or.inr ((mem_revzip cb s _).mpr this))⟩
+  obtain ⟨o, ho⟩ := hex
+  unfold syms
+  rw [List.mem_eraseDups, effPairs_eq]
+  exact List.mem_map.mpr ⟨effOf _ (s, o), List.mem_map.mpr ⟨(s, o), ho, rfl⟩, effOf_fst _ _⟩
+
 end Dask.UnifyPost
